@@ -63,6 +63,13 @@ def c12_case(draw, max_tasks=8, ext=False):
         t['estimate'] = draw(st.one_of(st.none(), st.sampled_from(pool), st.sampled_from(pool)))
         t['spent'] = draw(st.one_of(st.none(), st.none(), st.sampled_from([0, 0.1, 1, 5])))
         t['milestone'] = False
+        # dates on tasks (a scheduled or partly tracked plan) must not matter for the critical path
+        k = draw(st.integers(0, 5))
+        if k == 0:
+            t['end'] = '2031-03-0%dT00:00:00' % draw(st.integers(1, 9))
+        elif k == 1:
+            t['start'] = '2031-02-01T00:00:00'
+            t['end'] = '2031-03-05T00:00:00'
     if ext:
         m = Model(spec)
         spec['ext'] = [dict(id=draw(st.sampled_from([100, m.order[0]])), start='2026-01-01T00:00:00', end='2026-01-02T00:00:00',
